@@ -45,6 +45,11 @@ def ensure(what, log):
     if what == "plain":
         ok, msg = _run(["cargo", "build", "--profile", "plain"], HARNESS, {"CARGO_TARGET_DIR": f"{TARGET}/checked"}, log, what)
         return ok, f"{TARGET}/checked/plain/wv", msg
+    if what == "debug":
+        # unoptimised build of the harness with the two library crates (stack depth, overflow checks, debug assertions as
+        # in `cargo test`): only the string readers are driven with it
+        ok, msg = _run(["cargo", "build"], HARNESS, {"CARGO_TARGET_DIR": f"{TARGET}/checked"}, log, what)
+        return ok, f"{TARGET}/checked/debug/wv", msg
     if what == "uci-release":
         ok, msg = _run(["cargo", "build", "--release", "-p", "weechess_cli"], REPO, {"CARGO_TARGET_DIR": f"{TARGET}/uci"}, log, what)
         return ok, f"{TARGET}/uci/release/weechess", msg
@@ -66,7 +71,7 @@ def ensure(what, log):
 
 def setup(log):
     rc = 0
-    for what in ["checked", "plain", "uci-release", "uci-checked", "tsan", "miri"]:
+    for what in ["checked", "plain", "debug", "uci-release", "uci-checked", "tsan", "miri"]:
         ok, path, msg = ensure(what, log)
         log(f"[setup] {what}: {'ok' if ok else 'FAILED'} {path}")
         if not ok:
